@@ -12,7 +12,7 @@ def atLoc (env : Env) (up : Bool) (s : Str) : Option Node → Res
   | none => {}
   | some (.dir r es) => uploadOutputDirectoryEntered env up (.dir r es) [s]
   | some (.file x c) => if env.putFails (.file c) then .err .put else { files := [(s, c, x)] }
-  | some (.symlink t) => { symlinks := [(s, normTarget t)] }
+  | some (.symlink t) => if env.readlinkFails t then .err .fs else { symlinks := [(s, normTarget t)] }
   | some .special => .err .invalidArgument
 
 def isDir : Node → Bool
@@ -188,13 +188,13 @@ theorem atLoc_files (env : Env) (up : Bool) (s : Str) (found : Option Node) :
     cases n with
     | dir r es => simp [atLoc, uode_files]
     | file x c => simp only [atLoc]; split <;> rfl
-    | symlink t => rfl
+    | symlink t => simp only [atLoc]; split <;> rfl
     | special => rfl
 
 theorem atLoc_symlinks (env : Env) (up : Bool) (s : Str) (found : Option Node) :
     (atLoc env up s found).symlinks =
       match found with
-      | some (.symlink t) => [(s, normTarget t)]
+      | some (.symlink t) => if env.readlinkFails t then [] else [(s, normTarget t)]
       | _ => [] := by
   cases found with
   | none => rfl
@@ -202,7 +202,7 @@ theorem atLoc_symlinks (env : Env) (up : Bool) (s : Str) (found : Option Node) :
     cases n with
     | dir r es => simp [atLoc, uode_symlinks]
     | file x c => simp only [atLoc]; split <;> rfl
-    | symlink t => rfl
+    | symlink t => simp only [atLoc]; split <;> rfl
     | special => rfl
 
 theorem atLoc_dirs (env : Env) (up : Bool) (s : Str) (found : Option Node) :
@@ -216,7 +216,7 @@ theorem atLoc_dirs (env : Env) (up : Bool) (s : Str) (found : Option Node) :
     cases n with
     | dir r es => rfl
     | file x c => simp only [atLoc]; split <;> rfl
-    | symlink t => rfl
+    | symlink t => simp only [atLoc]; split <;> rfl
     | special => rfl
 
 /-- Every `OutputDirectory` entry produced for the strings `ps` carries one of these strings. -/
